@@ -389,7 +389,7 @@ func exploreSeq(c *Ctx, prop string, cfgs []dbCfg, steps []seqStep, budgets []in
 	}
 	for _, eager := range pol {
 		nv := len(c.Res.Violations)
-		ExploreSched(c, dbSeqScenario(prop, cfgs, steps, eager, &obs), SchedOpts{Delay: true, Budgets: budgets, MaxEnv: 0, MaxSteps: 200000,
+		ExploreSched(c, dbSeqScenario(prop, cfgs, steps, eager, &obs), SchedOpts{Delay: true, Budgets: budgets, MaxEnv: 1, EnvKinds: dbEnvKinds, MaxSteps: 200000,
 			Outcome: func() string {
 				return fmt.Sprintf("off-memtable-reads>0:%v tables:%d levels:%d reopens:%d", obs.offMem > 0, min(obs.maxTables, 3), obs.levels, obs.reopens)
 			},
